@@ -103,6 +103,7 @@ fn tape_name(t: &TapeSpec) -> &'static str {
         TapeSpec::Periodic { period: 32, .. } => "period-32",
         TapeSpec::Periodic { .. } => "period-64",
         TapeSpec::Perturb { .. } => "perturbed",
+        TapeSpec::Force { .. } => "forced",
     }
 }
 
